@@ -10,6 +10,7 @@
 package main
 
 import (
+	"math"
 	"bufio"
 	"bytes"
 	"encoding/json"
@@ -302,6 +303,70 @@ func samples(strs [][]byte) []sample {
 			f, ok := v.get("airport")
 			word(vid, "airport", f, ok, z4.Airport().String())
 		}})
+	}
+	// primitive list members of Z: every element token must be a word of the text format denoting the element
+	// (floats: inf, -inf, nan or a decimal number)
+	{
+		fl := func(f float64, bits int) string {
+			switch {
+			case math.IsNaN(f):
+				return "nan"
+			case math.IsInf(f, 1):
+				return "inf"
+			case math.IsInf(f, -1):
+				return "-inf"
+			}
+			return strconv.FormatFloat(f, 'g', -1, bits)
+		}
+		elems := func(vid, name string, v val, want []string) {
+			f, ok := v.get(name)
+			if !ok || f.kind != "list" || len(f.elems) != len(want) {
+				missing(vid, name)
+				return
+			}
+			for k := range want {
+				word(vid, fmt.Sprintf("%s[%d]", name, k), f.elems[k], true, want[k])
+			}
+		}
+		f64s := []float64{0, 1.5, -2.25e-300, 1e300, math.Inf(1), math.Inf(-1), math.NaN(), math.MaxFloat64}
+		z, _ := air.NewRootZ(newMsg())
+		l, _ := z.NewF64vec(int32(len(f64s)))
+		var w64 []string
+		for i, f := range f64s {
+			l.Set(i, f)
+			w64 = append(w64, fl(f, 64))
+		}
+		out = append(out, sample{"z-f64vec", air.Z_TypeID, z.Struct, func(vid string, v val) { elems(vid, "f64vec", v, w64) }})
+		f32s := []float32{0, 0.5, -3.25e-30, float32(math.Inf(1)), float32(math.Inf(-1)), float32(math.NaN()), math.MaxFloat32}
+		z2, _ := air.NewRootZ(newMsg())
+		l2, _ := z2.NewF32vec(int32(len(f32s)))
+		var w32 []string
+		for i, f := range f32s {
+			l2.Set(i, f)
+			w32 = append(w32, fl(float64(f), 32))
+		}
+		out = append(out, sample{"z-f32vec", air.Z_TypeID, z2.Struct, func(vid string, v val) { elems(vid, "f32vec", v, w32) }})
+		z3, _ := air.NewRootZ(newMsg())
+		l3, _ := z3.NewI64vec(3)
+		l3.Set(0, math.MinInt64)
+		l3.Set(1, -1)
+		l3.Set(2, math.MaxInt64)
+		out = append(out, sample{"z-i64vec", air.Z_TypeID, z3.Struct, func(vid string, v val) {
+			elems(vid, "i64vec", v, []string{"-9223372036854775808", "-1", "9223372036854775807"})
+		}})
+		z4, _ := air.NewRootZ(newMsg())
+		l4, _ := z4.NewBoolvec(9)
+		l4.Set(0, true)
+		l4.Set(8, true)
+		out = append(out, sample{"z-boolvec", air.Z_TypeID, z4.Struct, func(vid string, v val) {
+			elems(vid, "boolvec", v, []string{"true", "false", "false", "false", "false", "false", "false", "false", "true"})
+		}})
+		z5, _ := air.NewRootZ(newMsg())
+		l5, _ := z5.NewU8vec(3)
+		l5.Set(0, 0)
+		l5.Set(1, 127)
+		l5.Set(2, 255)
+		out = append(out, sample{"z-u8vec", air.Z_TypeID, z5.Struct, func(vid string, v val) { elems(vid, "u8vec", v, []string{"0", "127", "255"}) }})
 	}
 	return out
 }
